@@ -281,7 +281,7 @@ func TestC07(t *testing.T) {
 		hangMine: true,
 		repeat:   true,
 		rule:     "scripts with all close orders (v1: also inputs removed or replaced instead of closed, with their items still in flight), releases withheld across time steps, inputs left open and silent, v1 GracefulStop issued early / in the middle / late, plain and simplified; oracle: termination observed (Output()/Err() closed, GracefulStop returned) implies every input closed and delivered and nothing unreleased (no Handle running), no Release() panics, Err() yields no error, and at a quiescent point where that condition holds termination has happened; non-trivial = a release or a close was withheld across a time step or drain, or an input stayed open and idle while everything else was finished; distinct = distinct script JSON",
-		opts:     GenOpts{Vers: []int{1, 2}, Simple: []bool{false, false, true}, Dividers: libDiv, NoZero: true, AddRemove: true, Many: true},
+		opts:     GenOpts{Vers: []int{1, 2}, Simple: []bool{false, false, true}, Dividers: libDiv, NoZero: true, AddRemove: true, Many: true, LongHold: true},
 		check:    CheckC07,
 		skip: func(s Script, tr Trace) string {
 			if tr.NewErr != "" {
